@@ -513,6 +513,18 @@ RaftAddOther(s, id, kind) ==
                                           IF i = id THEN NewRemote(0, LastIdx(s) + 1) ELSE @[i]]]
           IN IF kind = "NV" THEN [s1 EXCEPT !.NV = @ \cup {id}] ELSE [s1 EXCEPT !.W = @ \cup {id}]
 
+ReleaseReads(s) ==
+  LET p == Len(s.riq)
+      idx == s.riq[p].index
+      s1 == [s EXCEPT !.riq = <<>>]
+      F[i \in 0..p] ==
+        IF i = 0 THEN s1
+        ELSE IF s.riq[i].from = None \/ s.riq[i].from = s.id
+               THEN [F[i-1] EXCEPT !.rtr = Append(@, [ctx |-> s.riq[i].ctx, index |-> idx])]
+               ELSE Send(F[i-1], [MsgT(s, "ReadIndexResp", s.riq[i].from)
+                                    EXCEPT !.lidx = idx, !.hint = s.riq[i].ctx])
+  IN F[p]
+
 RaftRemoveNode(s, id, r) ==
   \* CODE: readIndex.removeConfirmation: a replica that is no member any more cannot vouch for the leader,
   \* its confirmations of pending reads are dropped (they must not count towards the new, possibly smaller quorum)
@@ -522,9 +534,13 @@ RaftRemoveNode(s, id, r) ==
       s1 == IF id = s.id /\ s0.role = "L" /\ G.LeaderStepsDownWhenRemoved
               THEN BecomeFollower(s0, s0.term, None, r) ELSE s0
       s2 == IF s1.role = "L" /\ s1.xfer = id THEN [s1 EXCEPT !.xfer = None] ELSE s1
-  IN IF s2.role = "L" /\ NumVoting(s2) > 0 /\ s2.id \in DOMAIN s2.rem
-       THEN IF CanCommit(s2) THEN BroadcastReplicate(TryCommit(s2)) ELSE s2
-       ELSE s2
+      s3 == IF s2.role = "L" /\ NumVoting(s2) > 0 /\ s2.id \in DOMAIN s2.rem
+              THEN IF CanCommit(s2) THEN BroadcastReplicate(TryCommit(s2)) ELSE s2
+              ELSE s2
+  \* CODE: raft.releasePendingReadIndexes: the leader has become the only voting member, nobody is left whose
+  \* heartbeat response could confirm the pending reads (and while a read is pending the non-voting members get
+  \* no heartbeat): they are all released, each requester is answered with the ctx of its own request
+  IN IF s3.role = "L" /\ SingleQuorum(s3) /\ Len(s3.riq) > 0 THEN ReleaseReads(s3) ELSE s3
 
 RaftApplyCC(s, ccval, r) ==
   LET op == CCOp(ccval) id == CCId(ccval) IN
